@@ -56,7 +56,7 @@ def with_extra(ctx, tag, make_specs, kw=None):
     return ctx._pool
 
 
-def scripted_controller_runs(ctx, tag, n, want=("ctl",)):
+def scripted_controller_runs(ctx, tag, n, want=("ctl",), force_options=None, weights=None):
     """Runs in which every scalar improvement value is replaced by a scripted one (oracle scripting): the loop controller and the mesh
     rule are driven through arbitrary sequences of search/poll outcomes and stall flags.  Only the controller-level checks (C03, C13) read them."""
     rng = ctx.sub_rng(tag)
@@ -69,7 +69,9 @@ def scripted_controller_runs(ctx, tag, n, want=("ctl",)):
             sp["options"]["accelerate_mesh"] = False
         if rng.random() < 0.3:
             sp["options"]["tol_mesh"] = rng.choice([1e-2, 1e-3])
-        w = rng.choice([[3, 2, 3, 3], [6, 1, 2, 1], [1, 1, 6, 4], [2, 4, 4, 1]])
+        w = weights or rng.choice([[3, 2, 3, 3], [6, 1, 2, 1], [1, 1, 6, 4], [2, 4, 4, 1]])
+        if force_options:
+            sp["options"].update(force_options)
         kw = {"ei_script": {"seed": rng.randint(0, 10 ** 6), "weights": w}, "want": tuple(want)}
         if i % 3 == 2:
             # the candidate generator is scripted too: from the K-th search step on the strategy proposes nothing (as when every ES
@@ -417,7 +419,9 @@ def _c13_predicates(rep, t, x, case, tag, completed):
                 rep.violation("success_doubles", "bads.py:_poll_step_", f"iteration {k}: poll with sufficient improvement changed msi by {dm}; {tag}", case)
                 return
             if not good:
-                stall = x["outs"][k]["stallMesh"] and x["opts"]["accel"] and s["it"] > x["opts"]["accelSteps"]
+                # what the USER asked for decides (an explicit accelerate_mesh=False must switch the quartering off), not what ended up in b.options
+                accel = t["spec"].get("options", {}).get("accelerate_mesh", x["opts"]["accel"])
+                stall = x["outs"][k]["stallMesh"] and accel and s["it"] > x["opts"]["accelSteps"]
                 want = -2 if stall else -1
                 if dm != want:
                     rep.violation("failure_shrinks", "bads.py:_poll_step_", f"iteration {k}: failed poll changed msi by {dm}, expected {want}; {tag}", case)
